@@ -386,6 +386,11 @@ pub fn check_spki(k: &KeySpec, info: &mut CaseInfo) -> Result<(), String> {
 			return Err(format!("SubjectPublicKeyInfo::{name} returns algorithm {:?} for a {:?} key", back.algorithm(), k.alg));
 		}
 	}
+	// the PEM export is the same SubjectPublicKeyInfo under the RFC 7468 label for one ("PUBLIC KEY")
+	let from_text = crate::pemstrict::decode(&key.public_key_pem(), "PUBLIC KEY").map_err(|e| format!("the exported public key PEM does not decode independently as a SubjectPublicKeyInfo: {e}"))?;
+	if from_text != spki {
+		return Err("the exported public key PEM carries other bytes than public_key_der()".into());
+	}
 	Ok(())
 }
 
